@@ -199,4 +199,27 @@ VARIANTS = [
             "        raw_val = ser.serialize(self, val)\n"
             "        self[var_name] = raw_val\n"
             "        self._ser_cache[var_name] = val\n"},
+
+    # ---------------------------------------------------------------- strengthening round
+    {"name": "R3 decode shifts by the process' DST offset constant", "expect": "C09.R3",
+     "edits": [{"file": TMPL, "old": "import math\nimport zlib\n", "new": "import math\nimport time\nimport zlib\n"},
+               {"file": TMPL, "old": "return datetime.datetime.fromtimestamp(val / self._multiplier).isoformat()",
+                "new": "return datetime.datetime.utcfromtimestamp(val / self._multiplier - time.altzone).isoformat()"}]},
+    {"name": "R3 zone constant imported by name", "expect": "C09.R3",
+     "edits": [{"file": TMPL, "old": "import math\nimport zlib\n", "new": "import math\nfrom time import timezone as _tzoff\nimport zlib\n"},
+               {"file": TMPL, "old": "return int(datetime.datetime.fromisoformat(val).timestamp() * self._multiplier)",
+                "new": "return int((datetime.datetime.fromisoformat(val).timestamp() - _tzoff + _tzoff) * self._multiplier)"}]},
+    {"name": "P R3 time module used for a zone independent call only", "expect": "silent",
+     "edits": [{"file": TMPL, "old": "import math\nimport zlib\n", "new": "import math\nimport time\nimport zlib\n"},
+               {"file": TMPL, "old": "    def __init__(self, multiplier: int = 1):\n        super(DateAdapter, self).__init__(None)\n",
+                "new": "    def __init__(self, multiplier: int = 1):\n        super(DateAdapter, self).__init__(None)\n"
+                       "        self._created = time.monotonic()\n"}]},
+    {"name": "P R2 IntEnum.decode with the non-member case as a guard clause", "file": SER, "expect": "silent",
+     "old": "        if val in iter(self.enum_cls):\n            val = self.enum_cls(val)\n            if pod:\n"
+            "                return val.name\n            return val\n        elif self._strict:\n"
+            "            raise ValueError(f\"{val} is not a valid {self.enum_cls}\")\n"
+            "        # Doesn't exist in the enum, just return an int...\n        return val\n",
+     "new": "        if not (val in iter(self.enum_cls)):\n            if self._strict:\n"
+            "                raise ValueError(f\"{val} is not a valid {self.enum_cls}\")\n            return val\n"
+            "        member = self.enum_cls(val)\n        return member.name if pod else member\n"},
 ]
